@@ -536,7 +536,7 @@ fn inverse_trace<M: Inv4<Sym>>(sub: &mut Sub, cfg: &Config) {
 
 // ------------------------------------------------------------------ general inverse, values
 
-const FAMILIES: [&str; 16] = [
+const FAMILIES: [&str; 20] = [
     "dense",
     "block_a_zero",
     "block_d_zero",
@@ -553,6 +553,12 @@ const FAMILIES: [&str; 16] = [
     "repeated_rows_in_block",
     "entries_in_-1_0_1",
     "a_and_d_zero",
+    // the zero patterns of graphics matrices (added after seeded change C06_P): a closed-form inverse keyed on
+    // "this looks like a perspective / orthographic / affine matrix" must honour every entry the pattern leaves free
+    "perspective_shape",
+    "orthographic_shape",
+    "affine_shape",
+    "oblique_perspective_shape",
 ];
 
 fn gen_family<T: Elem>(rng: &mut Rng, fam: usize) -> Grid<T> {
@@ -633,9 +639,30 @@ fn gen_family<T: Elem>(rng: &mut Rng, fam: usize) -> Grid<T> {
                 }
             }
         }
-        _ => {
+        15 => {
             zero_block(&mut g, 0, 0);
             zero_block(&mut g, 2, 2);
+        }
+        16 | 19 => {
+            // [a 0 b 0; 0 c d 0; 0 0 e f; 0 0 g 0]: off-centre terms b, d present or not, g = +-1 or free;
+            // 19: the depth row is arbitrary (oblique near plane)
+            let (b, d) = if rng.bool() { (T::entry(rng), T::entry(rng)) } else { (z, z) };
+            let gg = match rng.below(3) {
+                0 => T::m_int(1),
+                1 => T::m_int(-1),
+                _ => T::entry_nz(rng),
+            };
+            let row2 = if fam == 19 { [T::entry(rng), T::entry(rng), T::entry_nz(rng), T::entry_nz(rng)] } else { [z, z, T::entry(rng), T::entry_nz(rng)] };
+            g = vec![vec![T::entry_nz(rng), z, b, z], vec![z, T::entry_nz(rng), d, z], row2.to_vec(), vec![z, z, gg, z]];
+        }
+        17 => {
+            g = vec![vec![T::entry_nz(rng), z, z, T::entry(rng)], vec![z, T::entry_nz(rng), z, T::entry(rng)], vec![z, z, T::entry_nz(rng), T::entry(rng)], vec![z, z, z, T::m_int(1)]];
+        }
+        _ => {
+            for j in 0..3 {
+                g[3][j] = z;
+            }
+            g[3][3] = T::m_int(1);
         }
     }
     g
@@ -1242,7 +1269,7 @@ fn main() {
     {
         let proto = Sub::new(
             "inverse_values",
-            "vek's general inverse (inverted and invert, Rows4 and Cols4) on Q matrices (boundary-biased small rationals) and Fp matrices (uniform), family = index mod 16: dense, 2x2 block A/D/B/C zero, A or D rank 1, all four blocks rank 1, monomial (permutation*diagonal), upper/lower triangular, diagonal, sparse, two equal rows inside a block, entries in {-1,0,1}, A and D zero; det = 0 (harness Leibniz) -> outside_domain; verdict: M*X = I, X*M = I by the harness's naive product, X = Gauss-Jordan inverse, invert() = inverted(); non-trivial = not diagonal; distinct by hash of entries and layout",
+            "vek's general inverse (inverted and invert, Rows4 and Cols4) on Q matrices (boundary-biased small rationals) and Fp matrices (uniform), family = index mod 20: dense, 2x2 block A/D/B/C zero, A or D rank 1, all four blocks rank 1, monomial (permutation*diagonal), upper/lower triangular, diagonal, sparse, two equal rows inside a block, entries in {-1,0,1}, A and D zero, the zero patterns of perspective (centred / off-centre / oblique depth row), orthographic and affine matrices; det = 0 (harness Leibniz) -> outside_domain; verdict: M*X = I, X*M = I by the harness's naive product, X = Gauss-Jordan inverse, invert() = inverted(); non-trivial = not diagonal; distinct by hash of entries and layout",
         )
         .with_floor(ni)
         .require(&["Mat4::inverted", "Mat4::invert"]);
